@@ -2,7 +2,8 @@
 C15 — a panicking operation is contained to its own object.
 -/
 import DesyncModel.Spec
-import DesyncModel.Tables
+import DesyncModel.Tables.Panic
+import DesyncModel.Tables.Pool
 import DesyncModel.FactGuard
 
 namespace Desync.C15
